@@ -22,9 +22,11 @@ META = {
             "exactly the cases in which the computed operator tends to the identity (C01 truth table, re-used). (4) the flags that "
             "distinguish a final segment from a cliff segment with the same end points are part of the recipe's IDENTITY: "
             "recipes are de-duplicated through a set and parts are stored under the hash of their header, so a flag left out of "
-            "equality/hash lets the segment of a target on a matching scale be answered by the cliff part another target needs.",
+            "equality/hash lets the segment of a target on a matching scale be answered by the cliff part another target needs. (5) every "
+            "coupling a segment asks for (compute_a, compute_aem_list; all schemes, threshold or not, QED or not) is requested in the "
+            "segment's own flavour number - the coupling object's default switches exactly on a matching scale.",
     "note": "Necessary conditions: the O(epsilon) bound on numbers needs execution and is not decided.",
-    "technique": "exhaustive partial evaluation over orderings (finite) + truth tables",
+    "technique": "exhaustive partial evaluation over orderings (finite) + truth tables + dataclass identity rule + partial evaluation of the coupling requests with a recording coupling object",
     "engine": "sa",
 }
 
